@@ -117,6 +117,8 @@ def op_to_coq(op):
             return "(OMk %s)" % to_coq(from_json(op["v"]))
         except (ValueError, TypeError):
             return None
+    if o == "same_id":
+        return "(OMk (XA (ABool true)))"        # reads two ids, returns a bool: nothing for the heap
     if o == "bundle_dict":
         return "(OMk %s)" % to_coq({"type": "bundle", "id": op["id"], "objects": Ref(op["arg"])})
     if o == "construct":
@@ -1061,6 +1063,10 @@ def sc_custom_types(rng):
         nk = b.mk({"items": Ref(b.mk(["j1", "j2"]))})
         b.add(op="new_version", arg=vo, kw=nk)
         b.add(op="new_version", arg=vo, kw=nk, method=True)
+        if rng.random() < 0.5:
+            b.add(op="revoke", arg=vo)
+        vo2 = b.add(op="construct", cls="custom.VerifVSco", kw=vk, allow_custom=True)
+        b.add(op="same_id", arg=vo, other=vo2)          # same content => same id, whatever happened in between
         objs.append(vo)
     n = rng.choice(names)
     ty, _ = CUSTOM_EXT[n]
